@@ -6,7 +6,6 @@ From Coq Require Import ZArith.
 From V.model Require Import Base Deb822Lex Deb822Parse Grammar Lossy LossySpec Derive TypedDocs.
 From V.gen Require Import Structs_gen.
 From V.proofs Require Import BaseP Deb822LexP Deb822ParseP GrammarAccP LossyP LossyRtP DeriveP TypedCodecP TypedCanonP TypedDocsP.
-Set Default Timeout 120.
 
 Definition has (p : tree) (k : str) : bool := match get p k with Some _ => true | None => false end.
 (* roles by distinguishing fields *)
